@@ -2,13 +2,30 @@
 //! crates; the Lean driver recomputes each line with the model's definition.
 use crate::gen::Rng;
 use crate::wire::enc;
-use ats_smart_contract::util::{is_hyphenated_uuid_str, is_invalid_price_precision};
 use cosmwasm_std::Uint128;
 use rust_decimal::prelude::*;
 use rust_decimal::{Decimal, RoundingStrategy};
 use semver::{Version, VersionReq};
 use std::panic::{catch_unwind, AssertUnwindSafe};
 use uuid::Uuid;
+
+// The two compositions of crate primitives below are spelled out here rather than imported from
+// the contract's `util` module: the unit streams validate the model's arithmetic / grammar
+// against rust_decimal and uuid themselves, and must not break when the contract renames or
+// re-types an internal helper (harmless rewrite H18-r14).  What the *contract* does with them is
+// tied by the histories through the entry points (prices at every precision, ids in every form).
+fn is_invalid_price_precision(price: Decimal, price_precision: Uint128) -> bool {
+    // (the contract is built with overflow checks: the power panics instead of wrapping)
+    let factor = 10u128.checked_pow(price_precision.u128() as u32).expect("attempt to multiply with overflow");
+    price.checked_mul(Decimal::from(factor)).unwrap().fract().ne(&Decimal::zero())
+}
+
+fn is_hyphenated_uuid_str(uuid: &str) -> bool {
+    match Uuid::parse_str(uuid) {
+        Ok(u) => u.hyphenated().to_string() == uuid,
+        Err(_) => false,
+    }
+}
 
 fn dec_str(r: &mut Rng) -> String {
     fn digits(r: &mut Rng, lo: u64, span: u64) -> String {
